@@ -136,13 +136,16 @@ def _build_atoms(K, closure):
     for phi in cl_list:
         Lang = sys.modules[phi.__module__]
 
-        if phi != Lang.Not(True) and phi != Lang.Bool(False):
+        if phi != Lang.Not(True):
             neg_phi = LNot(phi)
 
             A_tail = []
             if isinstance(phi, CTLS.Bool):
                 for atom in A:
-                    atom.add(phi)
+                    if phi == Lang.Bool(True):
+                        atom.add(phi)
+                    else:
+                        atom.add(neg_phi)
             else:
                 if isinstance(phi, CTLS.AtomicProposition):
                     for atom in A:
